@@ -19,7 +19,8 @@
 (***************************************************************************)
 EXTENDS Dom, SequencesExt, TLC
 
-CONSTANT WalkerCapturesNext
+CONSTANTS WalkerCapturesNext,   \* FALSE reproduces the lost-siblings defect (fixed in f54c457)
+          EmptyBlockFlushes     \* FALSE reproduces the silently skipped empty block (fixed later, see known_findings.json)
 
 \* kinds this model covers (layout tables need the tbody/tr/td wrappers and are left to the black-box checks)
 ModelKinds == AllKinds \ {"LT"}
@@ -91,7 +92,7 @@ Visit(doc, skip, s) ==
       [] k = "CMT"                      -> [s EXCEPT !.cur = i + 1]
       [] k \in SilentKinds              -> [s EXCEPT !.cur = Jump(doc, s, i)]
       [] k = "MRK" /\ skip              -> [s EXCEPT !.cur = Jump(doc, s, i)]
-      [] WithoutContent(doc, i)         -> [s EXCEPT !.cur = Jump(doc, s, i)]
+      [] WithoutContent(doc, i)         -> [s EXCEPT !.flush = @ \/ EmptyBlockFlushes, !.cur = Jump(doc, s, i)]
       [] k \in MediaLeaf                -> [Emit(doc, s, [t |-> "media", k |-> k, node |-> i]) EXCEPT !.cur = Jump(doc, s, i)]
       [] k = "DT"                       -> [Emit(doc, s, [t |-> "table", k |-> k, node |-> i]) EXCEPT !.cur = Jump(doc, s, i)]
       [] k = "SKF"                      -> [s EXCEPT !.flush = TRUE, !.cur = Jump(doc, s, i)]
@@ -177,10 +178,11 @@ Shape(es, map) ==
               sameGroupAsPrev |-> \E q \in 1..(n-1) : es[q].t = "text" /\ es[q].g = es[n].g]
         ELSE [t |-> es[n].t, k |-> es[n].k, node |-> map[es[n].node]]]
 Ident(doc) == [i \in 1..Len(doc) |-> i]
-\* Found by TLC on this model and confirmed on the real code (known finding of C20): a wrapper whose
-\* only content is a marked subtree is walked when the subtree is merely skipped, but is itself
-\* dropped as "element without content" once the subtree is deleted - the text runs around it
-\* then end up in one block instead of two.
+\* Found by TLC on this model (EmptyBlockFlushes = FALSE) and confirmed on the real code: a wrapper
+\* whose only content is a marked subtree is walked when the subtree is merely skipped, but was
+\* dropped silently as "element without content" once the subtree is deleted - the text runs around
+\* it then ended up in one block instead of two.  Since the repair an empty block requests a flush,
+\* and the theorem holds without this exclusion (Inv_C20_SkipEqualsDeleteUnrestricted).
 RECURSIVE EmptyWithoutMarks(_, _)
 EmptyWithoutMarks(doc, p) ==
     /\ doc[p].k \in {"DIV", "H", "MRK"}
